@@ -521,7 +521,9 @@ H_ApiRet(s, r, l) ==
          \* a transport that ends without the peer's close is an error, also when the endpoint's own close had already gone out
          + Chk("C14_ConnHandle", ~(r.res.ok /\ s.peof /\ ~s.pcloseHeard /\ ~s.pclose), l, r.op)
          \* the connection handle reports a transport failure itself
-         + Chk("C14_ConnHandle", ~(s.peof /\ ~s.pcloseHeard /\ s.ecloses = 0) \/ ~r.res.ok, l, ""))
+         + Chk("C14_ConnHandle", ~(s.peof /\ ~s.pcloseHeard /\ s.ecloses = 0) \/ ~r.res.ok, l, "")
+         \* ... and says why the connection stopped: "illegal state" is an answer only to a close that follows another close
+         + Chk("C14_ConnHandle", r.res.class # "IllegalState" \/ Cardinality({a \in DOMAIN s.callAt : s.callAt[a].op = "close"}) > 1, l, "illegal-state"))
   ELSE IF r.op = "begin" THEN
        \* a begin that cannot get a channel within channel-max is refused locally with the dedicated error
        R(s, Chk("C17_RefusedLocally", r.res.ok \/ r.res.class # "LocalChannelMaxReached" \/ Cardinality({i \in DOMAIN s.ss : LiveE(s.ss[i])}) > Min(s.echmax, s.pchmax), l, "")
